@@ -249,6 +249,8 @@ def check_run(world, ctrl, outcome, props, status, val):
             if n in part and status.get(n) == "runs" and n not in ctrl.exited:
                 add("C03", f"selected active node {n} never ran although the call returned normally")
                 add("C09", f"returned normally while selected active node {n} has not run")
+                if world.nodes[n].get("active"):
+                    add("C10", f"node {n} was not executed although the value its twz_active refers to ({world.nodes[n]['active']}) is truthy")
         if failed_any and any(status.get(n) == "fails" and n in ctrl.entered for n in world.order):
             add("C14", f"call returned normally although {ctrl.failed} failed")
     if kind == "raise":
